@@ -599,6 +599,19 @@ class World(object):
         return self._op_s_sent(self._stream_list(
             lambda x: x.phase in ("new", "detached") and not x.doomed).index(s), b, c)
 
+    def _op_s_detach_doomed(self, a, b, c):
+        """Extra op (not in DEFAULT_WEIGHTS; C07 opts in): a stream whose circuit was already reported gone is
+        reported DETACHED (REASON=DESTROY) instead of CLOSED/FAILED and may be attached elsewhere later.  tor
+        normally tears such streams down, but C07's statement quantifies over exactly this order ("under none
+        after it is detached ..., even if that circuit closed first")."""
+        s = self._pick(self._stream_list(lambda x: x.phase == "sent" and x.doomed), a)
+        if s is None:
+            return None
+        rp = self._stream_report(s, "DETACHED", [("REASON", "DESTROY")])
+        s.circ = None
+        s.phase = "detached"
+        return rp
+
     def _op_s_succeeded(self, a, b, c):
         s = self._pick(self._stream_list(lambda x: x.phase == "sent" and x.kind == "connect" and
                                          not x.doomed), a)
